@@ -738,6 +738,20 @@ fn corpus() -> Vec<(&'static str, Scen)> {
             },
         ),
         (
+            "deciding accept followed, in the same op, by a revision on top of the replaced document",
+            // {alice} -> R1 {alice, bob}; bob proposes R2 = {bob}; alice commits
+            // [accept R2, revision(parent = R1, doc = {alice})]: the second action is authored by a
+            // key that is no longer a delegate once the first action has adopted R2
+            Scen {
+                blobs: vec![d(&[0], 0), d(&[0, 1], 0), d(&[1], 0), d(&[0], 1)],
+                ops: vec![
+                    op(0, vec![propose(1, 1, Ref::Root, 0)]),
+                    op(1, vec![propose(2, 2, r0.clone(), 1)]),
+                    op(0, vec![Act::Accept { rev: r1.clone(), sig: by(0, 2) }, propose(3, 3, r0.clone(), 0)]),
+                ],
+            },
+        ),
+        (
             "two revision actions in one op",
             Scen {
                 blobs: vec![d(&[0], 0), d(&[0, 1, 2, 3], 0), d(&[0, 1, 2, 3], 1)],
